@@ -463,12 +463,16 @@ def c16(tier):
     for q in c05(tier):
         if "create_loop_3" in q.name or "add_packet_2" in q.name:
             continue
+        if "_via_" in q.name and q.defs.get("FAILCALL", 0) != 0:
+            continue            # the iterator queries re-listed under C05: only the no-engine-failure instances are repeated under memory checks
         q.name = q.name.replace("C05_tx_", "C16_own_"); q.mode = "safety"; q.timeout = 400
         q.note = "storage API under CBMC memory checks: no leak / double free / invalid free on any engine-outcome path"
         qs.append(q)
     # the safety-mode queries of the value / string / buffer harnesses
-    for src in (c10, c18, c09, c08, c07, c19, c17):
+    for src in (c10, c18, c09, c08, c07, c19, c17, c02):
         for q in src(tier):
+            if "_via_" in q.name:
+                continue        # already listed through its own family
             if q.mode == "safety" and not q.name.startswith("C19_list_P4") and not ("C17_alloc" in q.name and "_f" in q.name and not q.name.endswith(("_f00", "_f03"))):
                 q.name = "C16_via_" + q.name
                 qs.append(q)
@@ -479,7 +483,7 @@ META["C16"] = {"files": ["value.c", "map.c", "packet.c", "utils.c", "parser.c", 
                "functions": ["every function reached by the listed queries (see queries[].harness)"],
                "stubs": ["as in the originating properties; setlocale = C-standard model"],
                "assumptions": ["malloc does not fail except in the C17-derived queries", "bounds of the originating harnesses"],
-               "outside": ["code not reached by any listed query (parser productions, writer, cif_create/cif_destroy, to_double/to_digits kernels)", "sizes beyond the bounds"]}
+               "outside": ["code not reached by any listed query (parser productions and writer beyond the listed units, cif_create/cif_destroy, to_double/to_digits kernels)", "sizes beyond the bounds"]}
 
 
 # ------------------------------------------------------------------------------------------ C11
